@@ -88,6 +88,25 @@ package codegen
 //@   ensures [C15,C05] drop-upper: forall x int :: minIntSize && in_rng(prim_name(result0), x) ==> (upper_ok(*maximum, *exclusiveMaximum, x) <==> upper_ok(old(*maximum), old(*exclusiveMaximum), x))
 //@   ensures [C15,C03] pointer: (pointer <==> dyn(result0) == "*codegen.PointerType") && (!pointer ==> dyn(result0) == "codegen.PrimitiveType")
 
+// ---- the Go type of a string, a number, a boolean (C03, C02) -----------------------
+// A JSON string is held in a Go string — or, for the formats this tool knows, in
+// one of the run-time types that parse exactly that text (time.Time, netip.Addr,
+// the date and time types of pkg/types). Any OTHER format changes nothing: a Go
+// type that the decoders also fill from another JSON type ([]byte from an array,
+// an integer type from a number) would accept a value of the wrong JSON type. The
+// format is an arbitrary text here. Numbers are float64, booleans bool.
+//@ spec unptr(t) = dyn(t) == "*codegen.PointerType" ? t.Type : t
+//@ func PrimitiveTypeFromJSONSchemaType @scalars
+//@   props C03 C02
+//@   option verify-only
+//@   option noframe
+//@   shape jsType = "string" | "number" | "boolean"
+//@   ensures [C03,C02] ok: result1 == nil && result0 != nil
+//@   ensures [C03,C02] a-string-is-a-go-string-or-a-known-run-time-type: jsType == "string" ==> (dyn(unptr(result0)) == "codegen.PrimitiveType" ? prim_name(result0) == "string" : (dyn(unptr(result0)) == "codegen.NamedType" && (format == "date" || format == "time" || format == "date-time" || format == "ipv4" || format == "ipv6")))
+//@   ensures [C03,C02] a-number-is-a-float64: jsType == "number" ==> (dyn(unptr(result0)) == "codegen.PrimitiveType" ? prim_name(result0) == "float64" : false)
+//@   ensures [C03,C02] a-boolean-is-a-bool: jsType == "boolean" ==> (dyn(unptr(result0)) == "codegen.PrimitiveType" ? prim_name(result0) == "bool" : false)
+//@   ensures [C03] pointer: pointer <==> dyn(result0) == "*codegen.PointerType"
+
 // Deliberate error drops (C18 error-propagation obligations): writes into an
 // in-memory strings.Builder cannot fail.
 //@ func (*Emitter).Newline
